@@ -564,6 +564,29 @@ theorem drain_extends (t0 : List Ev) : ∀ n (a : Agent), Extends t0 a.st → Ex
         case stop => exact shutdown_extends t0 a st' this
         all_goals exact this
 
+/-- A bracketed top-level handler records its entry mark before anything else. -/
+theorem topRun_bracket (P : Prog) (en ex : Ev) (body : H) (st : St) :
+    Extends (en :: st.trace) (topRun P (bracket en body ex) st).1 := by
+  have h0 : topRun P (bracket en body ex) st
+      = topRun P (.seqCons body (.seqCons (.emit ex) .seqNil)) (st.log en) := by
+    unfold topRun
+    rw [run_eq_eval, run_eq_eval]
+    simp [bracket, eval, seqThen, seqNext]
+  rw [h0]
+  exact topRun_extends P _ _ _ ⟨[], by simp [St.log]⟩
+
+/-- `on_stop`: everything recorded from the shutdown on comes after the entry mark of `on_stop`, and the agent is
+not running afterwards. -/
+theorem shutdown_last (a : Agent) (st : St) :
+    (shutdown a st).phase ≠ .running ∧ Extends (.enTop .stop :: st.trace) (shutdown a st).st := by
+  unfold shutdown
+  have := topRun_bracket a.prog (.enTop .stop) (.exTop .stop) a.prog.onStop st
+  generalize topRun a.prog (bracket (.enTop .stop) a.prog.onStop (.exTop .stop)) st = r at this ⊢
+  obtain ⟨st', o⟩ := r
+  cases o with
+  | ok => exact ⟨by simp, this⟩
+  | err e => cases e <;> exact ⟨by simp, this⟩
+
 /-- `on_start` is the first handler of an agent: the oldest trace entry is its entry mark. -/
 theorem start_first (P : Prog) : (start P).st.trace.getLast? = some (.enTop .start) := by
   have key : Extends [.enTop .start] (start P).st := by
